@@ -42,6 +42,14 @@ def gen_spec(rng, tier, nmin=2, nmax=7, steps=(40, 160), restarts=True,
         spec["lm1"] = -1.5
     if rng.random() < 0.15:
         spec["allowmaxlength"] = True
+    if "wf" not in moves and rng.random() < 0.4:
+        # frames two or three lattice steps apart: trajectories jump over
+        # interfaces.  Only with shooting everywhere: a trajectory that jumps
+        # over a whole wire-fencing band [lambda_i, cap) has zero weight there
+        # but not above, a non-staircase weight row which inf_retis /
+        # sort_trajstate do not support (known finding C05-F25, probed
+        # directly in C05 instead of poisoning every history here).
+        spec["subcycles"] = rng.choice([2, 3])
     if restarts and rng.random() < 0.4:
         segs = []
         cur = 0
@@ -95,7 +103,7 @@ def case_dir(scratch, i):
 def brief(spec):
     keys = ["n_intf", "moves", "workers", "cap", "seed", "steps", "policy",
             "segments", "delete_old", "delete_old_all", "engine0", "lm1",
-            "maxlength"]
+            "maxlength", "subcycles"]
     return {k: spec[k] for k in keys if k in spec}
 
 
